@@ -128,12 +128,22 @@ def run(ctx: Ctx):
     for n in own_nodes(app.node):
         if isinstance(n, ast.Assign) and isinstance(n.value, ast.BinOp) and isinstance(n.value.op, ast.BitAnd) \
                 and all(isinstance(x, ast.Compare) for x in (n.value.left, n.value.right)):
-            l, r = n.value.left, n.value.right
-            st = u(_Strip().visit(copy.deepcopy(l.comparators[0])))
-            en = r.comparators[0]
-            en_name = u(_Strip().visit(copy.deepcopy(en)))
+            from sa.astutil import oriented
+            # (index >= start) & (index < end): orient both comparisons on their common operand, in either order
+            sides = [n.value.left, n.value.right]
+            common = {u(x) for x in (sides[0].left, sides[0].comparators[0])} & {u(x) for x in (sides[1].left, sides[1].comparators[0])}
+            if len(common) != 1:
+                continue
+            cx = common.pop()
+            os_ = [oriented(x, lambda e: u(e) == cx) for x in sides]
+            lo = [o for o in os_ if o and o[0] == "ge"]
+            hi = [o for o in os_ if o and o[0] == "lt"]
+            okshape = len(lo) == 1 and len(hi) == 1
+            if not okshape:
+                continue
+            st = u(_Strip().visit(copy.deepcopy(lo[0][2])))
+            en_name = u(_Strip().visit(copy.deepcopy(hi[0][2])))
             end_def = [d.value for d in rda.defs if d.name == en_name and d.kind == "assign"]
-            okshape = isinstance(l.ops[0], ast.GtE) and isinstance(r.ops[0], ast.Lt) and u(l.left) == u(r.left)
             for (s_i, w_i, tag) in ((4, 5, "time"), (6, 7, "freq")):
                 if st == names[s_i]:
                     mask_ok[tag] = okshape and len(end_def) == 1 and u(end_def[0]) == f"{names[s_i]} + {names[w_i]}"
